@@ -432,7 +432,70 @@ def _desc(g):
             "lat0": float(np.nanmin(np.where(np.isfinite(lats), lats, np.nan))), "checksum": float(np.nansum(np.where(np.isfinite(lons), lons, 0)) + np.nansum(np.where(np.isfinite(lats), lats, 0)))}
 
 
-def suite_resamplers(ctx):
+def _axis_geoms(ctx, rng):
+    """Targets with a row of pixel centres exactly on the projection's x axis (y = 0: an odd number of rows, symmetric about y = 0), a column exactly on
+    its y axis (x = 0: odd number of columns, symmetric about x = 0), or both (an area centred on the projection centre), over axis-aligned source areas
+    in the SAME non-cylindrical projection (laea, oblique / polar stere, lcc): any source extent and resolution, not aligned with the target's pixels.
+    Same tuples as _strip_geoms; checked by suite_resamplers like every other pair (affine-field oracle, constant, range, quadrants, numpy == xarray)."""
+    from pyresample.geometry import AreaDefinition
+    out = []
+    n = 3 if ctx.quick else 12
+    projs = ["laea", "stere", "lcc", "polar-stere"]
+    rng.shuffle(projs)
+    axes = ["y=0", "x=0", "both"]
+    rng.shuffle(axes)
+    for k in range(n):
+        pk = projs[k % len(projs)]
+        lon_0 = float(rng.randrange(-170, 171, 5))
+        if pk == "laea":
+            proj = {"proj": "laea", "lat_0": float(rng.randrange(-70, 71, 5)), "lon_0": lon_0, "ellps": "WGS84"}
+        elif pk == "stere":
+            proj = {"proj": "stere", "lat_0": float(rng.randrange(-60, 61, 5)), "lon_0": lon_0, "ellps": "WGS84"}
+        elif pk == "polar-stere":
+            pole = rng.choice([90.0, -90.0])
+            proj = {"proj": "stere", "lat_0": pole, "lat_ts": pole * rng.choice([60, 70]) / 90.0, "lon_0": lon_0, "ellps": "WGS84"}
+        else:
+            lat_c = float(rng.choice([-1, 1]) * rng.randrange(25, 61, 5))
+            proj = {"proj": "lcc", "lat_1": lat_c - 10.0, "lat_2": lat_c + 10.0, "lat_0": lat_c, "lon_0": lon_0, "ellps": "WGS84"}
+        axis = axes[k % 3]
+        tw, th = 2 * rng.randint(4, 12) + 1, 2 * rng.randint(3, 11) + 1        # odd
+        dx, dy = rng.randrange(2000, 16000) * 0.5, rng.randrange(2000, 16000) * 0.5      # multiples of 0.5 m: the centre row / column is at 0.0 exactly
+        if rng.random() < 0.5:
+            dy = dx
+        far = 2.0e6 if pk != "polar-stere" else 3.0e6
+        cx = 0.0 if axis in ("x=0", "both") else rng.choice([-1, 1]) * rng.uniform(0.0, far) + (rng.choice([0.0, 0.5]) * dx)
+        cy = 0.0 if axis in ("y=0", "both") else rng.choice([-1, 1]) * rng.uniform(0.0, far)
+        if axis == "y=0" and rng.random() < 0.3:
+            tw += 1                                                             # (only the rows have to be symmetric)
+        if axis == "x=0" and rng.random() < 0.3:
+            th += 1
+        text = (cx - tw * dx / 2, cy - th * dy / 2, cx + tw * dx / 2, cy + th * dy / 2)
+        tgt = AreaDefinition(f"axis_t{k}", "t", "t", proj, tw, th, text)
+        # the source: same projection, its own resolution and origin (arbitrary floats), a margin of a few pixels around the target
+        res = max(dx, dy) * rng.choice([0.55, 1.0, 1.25, 2.2])
+        sx0 = text[0] - rng.uniform(3.0, 5.0) * res
+        sy0 = text[1] - rng.uniform(3.0, 5.0) * res
+        sw = int((text[2] - sx0) / res) + rng.randint(4, 6)
+        sh = int((text[3] - sy0) / res) + rng.randint(4, 6)
+        src = AreaDefinition(f"axis_s{k}", "s", "s", proj, sw, sh, (sx0, sy0, sx0 + sw * res, sy0 + sh * res))
+        ty = np.asarray(tgt.get_proj_coords()[1])[:, 0]
+        tx = np.asarray(tgt.get_proj_coords()[0])[0, :]
+        ctx.count("axis.target_rows_on_y0", int((ty == 0.0).sum()))
+        ctx.count("axis.target_columns_on_x0", int((tx == 0.0).sum()))
+        ctx.count("axis.proj." + pk)
+        out.append((f"axis-{pk}-{axis}", src, tgt, 3.2 * res, rng.choice([12, 32]),
+                    {"chunkings": [(-1, -1), (7, 11)], "geo_chunks": [4096], "fields": ("constant", "affine") if ctx.quick else ("constant", "affine", "random", "offset"),
+                     "joint_chunks": (7, 11), "describe": {"target_axis": axis, "target_pixel": [dx, dy], "source_pixel": res}}))
+    return out
+
+
+def suite_axis_targets(ctx):
+    import random
+    r = random.Random(f"C06-axis-{ctx.seed}")
+    suite_resamplers(ctx, geoms=_axis_geoms(ctx, r), rng=r)
+
+
+def suite_resamplers(ctx, geoms=None, rng=None):
     import dask
     import dask.array as da
     import xarray as xr
@@ -441,9 +504,12 @@ def suite_resamplers(ctx):
     from pyresample.bilinear import _base as B
     import pyresample.bilinear.xarr as X
     import random
-    rng = ctx.rng
-    rng2 = random.Random(f"C06-extra-{ctx.seed}")        # families added later draw from their own stream
-    geoms = [g + ({},) for g in _geoms(ctx)] + _strip_geoms(ctx, rng2)
+    if geoms is None:
+        rng = ctx.rng
+        rng2 = random.Random(f"C06-extra-{ctx.seed}")        # families added later draw from their own stream
+        geoms = [g + ({},) for g in _geoms(ctx)] + _strip_geoms(ctx, rng2)
+    else:
+        rng2 = rng                                           # a family run on its own: every draw from the stream it was given
     for label, src, tgt, radius, neighbours, opts in geoms:
         wanted = opts.get("fields")
         sx, sy, sok = _src_xy_in_target(src, tgt)
@@ -990,7 +1056,7 @@ def suite_source_memory_layout(ctx):
 
 def run(ctx):
     import traceback
-    for suite in (suite_solver, suite_corners, suite_resample, suite_resamplers, suite_source_memory_layout):
+    for suite in (suite_solver, suite_corners, suite_resample, suite_resamplers, suite_source_memory_layout, suite_axis_targets):
         try:
             suite(ctx)
         except Exception as e:  # noqa
